@@ -278,6 +278,34 @@ pub fn run(ctx: &mut Ctx) {
         rt(ctx, "f64", f64::from_bits(r.next()), &eqd);
         if r.chance(1, 4) {
             rt(ctx, "String", random_string(&mut r, 20), &|a, b| a == b);
+            // the reference and copy-on-write spellings of text and bytes convert to the same Value as the owned types, and a
+            // Cow<str> comes back as the same text
+            {
+                use std::borrow::Cow;
+                let st = random_string(&mut r, 12); let by: Vec<u8> = (0..r.below(10)).map(|_| r.below(256) as u8).collect();
+                ctx.eval_only(&format!("borrowed:{st:?}"), true);
+                ctx.count("type.borrowed");
+                let owned: Value = st.clone().into();
+                let from_ref: Value = (&st).into(); let from_str: Value = st.as_str().into();
+                let from_cow_b: Value = Cow::Borrowed(st.as_str()).into(); let from_cow_o: Value = Cow::<str>::Owned(st.clone()).into();
+                let from_bytes: Value = by.as_slice().into(); let owned_bytes: Value = by.clone().into();
+                if from_ref != owned || from_str != owned || from_cow_b != owned || from_cow_o != owned || from_bytes != owned_bytes {
+                    ctx.oracle_fail("a borrowed / copy-on-write spelling converts to a different Value than the owned type", serde_json::json!({"text": st, "bytes": by, "owned": format!("{owned:?}"), "ref_string": format!("{from_ref:?}"), "str": format!("{from_str:?}"), "cow": format!("{from_cow_b:?} {from_cow_o:?}"), "slice": format!("{from_bytes:?}")}));
+                }
+                match catch(|| <Cow<'_, str> as ValueType>::try_from(owned.clone()).ok()).flatten() {
+                    Some(c) if c == st.as_str() => {}
+                    other => ctx.oracle_fail("T -> Value -> T does not return the value", serde_json::json!({"type": "Cow<str>", "value": st, "got": format!("{other:?}")})),
+                }
+                for foreign in [Value::Int(Some(1)), Value::String(None), Value::Char(Some('x')), Value::Bytes(Some(Box::new(st.clone().into_bytes())))] {
+                    if catch(|| <Cow<'_, str> as ValueType>::try_from(foreign.clone()).ok()).flatten().is_some() {
+                        ctx.oracle_fail("extracting a value as a different type did not fail", serde_json::json!({"type": "Cow<str>", "source": format!("{foreign:?}")}));
+                    }
+                }
+                // Value::unwrap / expect are try_from that panics
+                if catch(|| owned.clone().unwrap::<String>()) != Some(st.clone()) || catch(|| owned.clone().expect::<String>("text")) != Some(st.clone()) || catch(|| owned.clone().unwrap::<i32>()).is_some() {
+                    ctx.oracle_fail("Value::unwrap / expect disagree with extraction", serde_json::json!({"value": st}));
+                }
+            }
             let n = r.below(16); rt(ctx, "Vec<u8>", (0..n).map(|_| r.below(256) as u8).collect::<Vec<u8>>(), &|a, b| a == b);
             let j = match r.below(6) { 0 => serde_json::Value::Null, 1 => serde_json::json!(r.below(100)), 2 => serde_json::json!(random_string(&mut r, 5)), 3 => serde_json::json!([1, null, {"k": random_string(&mut r, 3)}]), 4 => serde_json::json!({"z": 1, "a": [true, null]}), _ => serde_json::json!(null) };
             rt(ctx, "Json", j, &|a, b| a == b);
